@@ -317,9 +317,26 @@ def run_child(bdir, mode, scn):
 
 
 def gen_history(rnd, hid):
+    """install / restore / foreign-handler steps on two Logger objects; every other history also destroys loggers and
+    probes, after each step, who receives a message emitted through Qt's macros (the logger installed last and still
+    alive - QtlConfig!Receiver)"""
     ops = []
+    probing = hid % 2 == 0
+    alive = {"install": True, "install2": True}
     for _ in range(rnd.randint(1, 9)):
-        ops.append(rnd.choice(["install", "install", "install2", "restore", "restore", "f1", "f2"]))
+        op = rnd.choice(["install", "install", "install2", "restore", "restore", "f1", "f2"] + (["kill", "kill2"] if probing else []))
+        if op in ("kill", "kill2"):
+            tgt = "install" if op == "kill" else "install2"
+            if not alive[tgt]:
+                continue
+            alive[tgt] = False
+        if op in alive and not alive[op]:
+            continue
+        ops.append(op)
+        if probing:
+            ops.append("log")
+    if not ops:
+        ops = ["install"]
     return {"id": hid, "ops": ops}
 
 
